@@ -115,6 +115,13 @@ def spdOf (base : List (Nat × Float)) (l : List (Inst Float)) : Float :=
 /-- the units' own resistances as the harness registers them -/
 def baseDres (t : Int) : List (Nat × Float) := if t == 2 then [(100, 0.5), (103, 0.25)] else []
 
+/-- the harness's "has at least one of these flags" queries: every ordered pair of the query set, two triples, the empty query -/
+def flagQuerySet : List Nat := [1, 100, 101, 102, 103]
+def anyFlagQueries (has : List Nat → Bool) : List Int :=
+  let b (x : Bool) : Int := if x then 1 else 0
+  (flagQuerySet.flatMap fun x => (flagQuerySet.filter (· != x)).map fun y => b (has [x, y])) ++
+    [b (has [102, 1, 103]), b (has [103, 102, 100]), b (has [])]
+
 def listRec (cat : Catalog Float) (s : St Float) (t : Int) : Rec :=
   let l := s.targets t
   let joinI (f : Inst Float → Int) := l.map f
@@ -136,6 +143,8 @@ def listRec (cat : Catalog Float) (s : St Float) (t : Int) : Rec :=
     |>.addIs "scounts" ([0, 1, 2].map fun k => Int.ofNat (statusCount cat l k))
     |>.addIs "flags" (([1, 100, 101, 103].filter fun f => hasFlag cat l f).map Int.ofNat)
     |>.addFs "dres" ([100, 101, 103].map fun f => debuffRes (dresTotal (baseDres t) l) [f])
+    |>.addIs "anyflag" (anyFlagQueries fun fs => fs.any (hasFlag cat l))
+    |>.addIs "mgrflag" (anyFlagQueries fun fs => fs.any (hasFlag cat l))
 
 /-- oracle input of the model: for a random dispel, which candidates the run's shuffle put first —
 read off the implementation's attached list after the operation (the candidates that are gone) -/
